@@ -4,6 +4,7 @@ package zap
 
 import (
 	"errors"
+	"strings"
 	"fmt"
 	"log"
 	"net/url"
@@ -45,6 +46,7 @@ type vOpenEnv struct {
 	fail    map[string]bool // paths/hosts that fail to open
 	failW   map[string]bool // files whose writes fail
 	asked   []string        // every path the file opener was asked for
+	refused []string        // paths that belong to destinations the URL rules refuse
 	saved   *sinkRegistry
 }
 
@@ -108,7 +110,7 @@ func (e *vOpenEnv) vPath(id string, kinds ...int) (spelling string, fails bool) 
 	if len(kinds) > 0 {
 		kind = kinds[vrt.Choice(id+".kind", len(kinds))]
 	} else {
-		kind = vrt.Choice(id+".kind", 5)
+		kind = vrt.Choice(id+".kind", 6)
 	}
 	fails = vrt.Bool(id + ".fails")
 	var key string
@@ -128,6 +130,12 @@ func (e *vOpenEnv) vPath(id string, kinds ...int) (spelling string, fails bool) 
 	case 4:
 		key = "rel-" + id
 		spelling = key
+	case 5: // a destination the file-URL rules refuse, whatever the opener would do: nothing may be opened for it
+		bad := []string{"rel-%s?rotate=daily", "rel-%s#frag", "stdout?sync=1", "file:///p/%s?x=1", "file://user@localhost/p/%s", "file://localhost:80/p/%s", "file://example.com/p/%s", "file:///p/%s#f"}
+		b := bad[vrt.Choice(id+".bad", len(bad))]
+		spelling = strings.Replace(b, "%s", id, 1)
+		e.refused = append(e.refused, "rel-"+id, "/p/"+id, "stdout")
+		return spelling, true
 	}
 	if fails {
 		e.fail[key] = true
@@ -153,6 +161,11 @@ func vOpenN(maxP int) {
 		vrt.Cover("open-fails")
 		vrt.Assert("error-reported-when-any-destination-fails", err != nil && ws == nil && closeAll == nil)
 		vrt.Assert("failure-closes-every-opened-sink", e.allClosed())
+		for _, a := range e.asked {
+			for _, r := range e.refused {
+				vrt.Assert("nothing-opened-for-a-refused-url", a != r)
+			}
+		}
 		return
 	}
 	vrt.Cover("open-succeeds")
@@ -188,7 +201,7 @@ func vOpenN(maxP int) {
 	vrt.Assert("closeAll-closes-every-sink", e.allClosed())
 }
 
-//verif: prop=C19 bounds="Open with 0..2 destinations, each an absolute path, file URL, FILE://localhost URL, registered custom scheme (registered upper-case, used lower/mixed case) or relative path, each opening successfully or failing (every outcome vector); success: 2 symbolic bytes reach every destination, Sync reaches all, closeAll closes each once; failure: every opened handle closed"
+//verif: prop=C19 bounds="Open with 0..2 destinations, each an absolute path, file URL, FILE://localhost URL, registered custom scheme (registered upper-case, used lower/mixed case), relative path, or a destination the file-URL rules refuse (query or fragment on a scheme-less path or file URL, user info, port, foreign host), each opening successfully or failing (every outcome vector); success: 2 symbolic bytes reach every destination, Sync reaches all, closeAll closes each once; failure: every opened handle closed"
 func VC19Open2() { vOpenN(2) }
 
 //verif: prop=C19 tier=thorough bounds="Open with 0..3 destinations (as VC19Open2)"
@@ -288,11 +301,27 @@ func vURLCase() {
 	if hasUser {
 		u.User = url.User("u")
 	}
-	frag := vrt.String("frag", vrt.Choice("fraglen", 2))
-	query := vrt.String("query", vrt.Choice("querylen", 2))
+	// one component at a time carries a symbolic byte (rejections print the URL, whose escaping would
+	// otherwise multiply the cases of every component with every other)
+	which := vrt.Choice("symbolic-part", 4) // 0 fragment, 1 query, 2 host, 3 path
+	frag, query := "", ""
+	switch vrt.Choice("fragquery", 3) {
+	case 1:
+		frag = "f"
+	case 2:
+		query = "q=1"
+	}
+	if which == 0 {
+		frag = vrt.String("frag", vrt.Choice("fraglen", 2))
+	}
+	if which == 1 {
+		query = vrt.String("query", vrt.Choice("querylen", 2))
+	}
 	u.Fragment, u.RawQuery = frag, query
-	// host: one of a menu, or symbolic bytes around "localhost"
-	hostKind := vrt.Choice("host", 7)
+	hostKind := vrt.Choice("host", 5)
+	if which == 2 {
+		hostKind = 5 + vrt.Choice("symhost", 2)
+	}
 	switch hostKind {
 	case 0:
 		u.Host = ""
@@ -309,7 +338,10 @@ func vURLCase() {
 	case 6:
 		u.Host = "localhost:" + vrt.String("port", 1)
 	}
-	u.Path = "/p/" + vrt.String("path", 1)
+	u.Path = "/p/x"
+	if which == 3 {
+		u.Path = "/p/" + vrt.String("path", 1)
+	}
 	sink, err := _sinkRegistry.newFileSinkFromURL(u)
 	vrt.Observe("url-rejected", err != nil)
 	hostOK := hostKind == 0 || hostKind == 1 || (hostKind == 5 && u.Host == "localhost")
@@ -324,7 +356,7 @@ func vURLCase() {
 	}
 }
 
-//verif: prop=C19 bounds="newFileSinkFromURL on url.URL values: user info present/absent, fragment and query of 0..1 symbolic bytes, host from {empty, localhost, localhost:8080, example.com, :80, localhos+1 symbolic byte, localhost:+1 symbolic port byte}, path with 1 symbolic byte; url.Parse itself is trusted (executed concretely in VC19Open*)"
+//verif: prop=C19 bounds="newFileSinkFromURL on url.URL values: user info present/absent, fragment/query absent, concrete or 0..1 symbolic bytes, host from {empty, localhost, localhost:8080, example.com, :80, localhos+1 symbolic byte, localhost:+1 symbolic port byte}, path concrete or with 1 symbolic byte (one component symbolic at a time); url.Parse itself is trusted (executed concretely in VC19Open*)"
 func VC19FileURL() { vURLCase() }
 
 // ---------------------------------------------------------------- registries
